@@ -2,10 +2,12 @@
 package c04
 
 import (
+	"fmt"
 	"html/template"
 	"time"
 
 	plush "github.com/gobuffalo/plush/v5"
+	"github.com/gobuffalo/plush/v5/helpers/hctx"
 
 	"verifharness/vrt"
 )
@@ -19,6 +21,9 @@ func init() {
 	vrt.Register("C04_calls", Calls)
 	vrt.Register("C04_typed_parameters", TypedParameters)
 	vrt.Register("C04_receiver_forms", ReceiverForms)
+	vrt.Register("C04_helper_context_forms", HelperContextForms)
+	vrt.Register("C04_results_used_as_values", ResultsUsedAsValues)
+	vrt.Register("C04_container_changed_in_loop", ContainerChangedInLoop)
 	vrt.Register("C04_helpers", Helpers)
 	vrt.Register("C04_helpers_iter", HelpersIter)
 	vrt.Register("C04_user_functions", UserFunctions)
@@ -54,6 +59,10 @@ type boxed struct {
 	Tag  interface{}
 }
 
+type named2 string
+
+func (n named2) String() string { return string(n) }
+
 type failErr struct{}
 
 func (failErr) Error() string { return "fail" }
@@ -70,7 +79,7 @@ func (i *iter) Next() interface{} {
 	return i.n
 }
 
-const nKinds = 42
+const nKinds = 43
 
 // val: a value of kind k (payloads arbitrary where a payload can matter).
 func val(k int) interface{} {
@@ -161,8 +170,10 @@ func val(k int) interface{} {
 		return &p // pointer to pointer
 	case 40:
 		return uint64(1) << 63
-	default:
+	case 41:
 		return int16(-3)
+	default:
+		return []fmt.Stringer{named2("s")} // a slice whose element type is an interface with methods
 	}
 }
 
@@ -519,4 +530,66 @@ func ReceiverForms() {
 		in += "<%= for (a) in mixed { %><%= a.Get() %><% } %>"
 	}
 	total(in, ctx)
+}
+
+// ---- Go functions that take the helper context in each of its forms (the
+// struct, a pointer to it, the interface), called without it, with nil in its
+// place, with a block; the built-in block helpers with nil where the helper
+// context goes
+func HelperContextForms() {
+	ctx := plush.NewContext()
+	ctx.Set("hs", func(help plush.HelperContext) string { return "s" })
+	ctx.Set("hp", func(help *plush.HelperContext) string {
+		if help == nil {
+			return "nil"
+		}
+		return "p"
+	})
+	ctx.Set("hi", func(help hctx.HelperContext) string {
+		if help == nil {
+			return "nil"
+		}
+		return "i"
+	})
+	ctx.Set("hm", func(m map[string]interface{}, help *plush.HelperContext) string { return "m" })
+	ctx.Set("partialFeeder", func(string) (string, error) { return "P", nil })
+	calls := []string{
+		"hs()", "hp()", "hi()", "hm()", "hs(nil)", "hp(nil)", "hi(nil)", "hm({}, nil)", "hm(nil, nil)", "hm(nil)",
+		"hs() { %>b<% }", "hp() { %>b<% }", "hi() { %>b<% }",
+		"contentOf(\"a\", {}, nil)", "contentOf(\"a\", nil, nil)", "contentFor(\"a\", nil)", "contentOf(\"a\", {}, nil) { %>d<% }",
+		"partial(\"p\", {}, nil)", "partial(\"p\", nil, nil)", "partial(nil)", "htmlEscape(\"x\", nil)", "jsEscape(\"x\", nil)",
+	}
+	total("<%= "+calls[vrt.Choice(len(calls))]+" %>", ctx)
+}
+
+// ---- what an operator or a call yields is an ordinary value: it can be
+// indexed, measured, looped over, compared and have members looked up on it
+// without anything but an error coming out (array + value, string + value,
+// hash literal, user function result, helper result)
+func ResultsUsedAsValues() {
+	ctx := plush.NewContext()
+	ctx.Set("a", val(vrt.Choice(nKinds)))
+	ctx.Set("xs", []int{1, 2})
+	ctx.Set("ss", []string{"a"})
+	makers := []string{"[1] + 2", "xs + 3", "ss + \"b\"", "[1] + a", "xs + a", "ss + a", "\"s\" + a", "{k: a}", "[a, 1]", "a + a"}
+	uses := []string{"v[1]", "len(v)", "v.Index(7)", "v.Len()", "v.String()", "v.k", "v[\"k\"]", "v == v", "v + 1", "v.Interface()", "v.Slice(0, 9)", "v.Elem()"}
+	in := "<% let v = " + makers[vrt.Choice(len(makers))] + " %><%= " + uses[vrt.Choice(len(uses))] + " %>|<%= for (e) in v { %><%= e %><% } %>"
+	total(in, ctx)
+}
+
+// ---- the body of a loop changes the container the loop runs over (an entry
+// removed by assigning nil, an entry added, an element overwritten, the
+// variable rebound): the loop ends or goes on, nothing panics
+func ContainerChangedInLoop() {
+	ctx := plush.NewContext()
+	ctx.Set("m", map[string]interface{}{"a": 1, "b": 2, "c": 3})
+	ctx.Set("mi", map[int]string{1: "a", 2: "b"})
+	ctx.Set("xs", []interface{}{1, 2, 3})
+	ctx.Set("a", val(vrt.Choice(nKinds)))
+	loops := []string{"for (k, v) in m", "for (k, v) in mi", "for (k, v) in xs"}
+	bodies := []string{"m[\"b\"] = nil", "m[\"c\"] = nil", "m[k] = nil", "m[\"z\"] = 1", "mi[2] = nil", "mi[k] = nil", "xs[0] = nil", "xs[k] = a", "m[\"a\"] = a", "let m = nil", "m = a", "xs = xs + 4", "mi[1] = a"}
+	vrt.MapOrderNondet(true)
+	in := "<%= " + loops[vrt.Choice(len(loops))] + " { %><% " + bodies[vrt.Choice(len(bodies))] + " %><%= k %>;<% } %>"
+	total(in, ctx)
+	vrt.MapOrderNondet(false)
 }
